@@ -349,6 +349,7 @@ func (e *Env) Generate(v Variant) (*GenResult, error) {
 		ac.Channel = alt.Channel
 		ac.YamlStyle = alt.YamlStyle
 		ac.BoolStyle = alt.BoolStyle
+		ac.CliGap = alt.CliGap
 		ad := v.D
 		if len(alt.Msgs) > 0 {
 			ad.Msgs = alt.Msgs
